@@ -50,6 +50,7 @@ def run_variant(v: dict, root: str) -> dict:
                         'why': f'does not compile: {exc}'}
             open(p, 'w', encoding='utf-8').write(s)
         env = dict(os.environ, PYMAP_ROOT=tmp, SA_NO_EVIDENCE='1',
+                   VERIF_TIER='quick',
                    SA_NO_CACHE_WRITE='1')
         pr = subprocess.run([os.path.join(VERIF, 'check'), v['prop']],
                             cwd=VERIF, env=env, capture_output=True,
